@@ -31,7 +31,7 @@ ASSUMPTIONS = ["virtual time: timers fire when the driver reaches their "
                "its thread's passes (one legal interleaving of the two threads)",
                "fairness over unbounded runs is not decided: every runnable "
                "task must have run by quiescence of a bounded program"]
-REQUIRED = ["programs", "steps_checked", "timed_resumes", "select_timeouts",
+REQUIRED = ["programs", "redundant_wakes_of_a_queued_task", "steps_checked", "timed_resumes", "select_timeouts",
             "select_ready", "wakes", "subtask_returns", "subtask_raises",
             "tasks_raised", "timer_fires", "timers_cancelled", "quiescent_checks",
             "programs_natural_drive", "natural_select_timeouts",
@@ -505,6 +505,25 @@ def _run_program (case, rep, w, clock, sched, fire, rc):
         leave()
         v = yield 0
         enter(tid)
+      elif kind == "poke":
+        # schedule() for a task that is in the ready queue already (it
+        # yielded 0, or its wait just ended): documented as harmless - the
+        # task must not end up queued twice
+        enter(tid)
+        tgt = tasks.get(st[1])
+        # (only as a task does it in a running system, on the scheduler's own
+        #  thread, where schedule() looks at the queue there and then; from
+        #  any other thread the look happens later, and a task that has gone
+        #  to sleep by then is woken - the caller's mistake, not a defect)
+        import threading as _th
+        if tgt is not None and st[1] != tid and tgt in sched._ready \
+           and sched._thread is _th.current_thread():
+          sched.schedule(tgt)
+          rep.count("redundant_wakes_of_a_queued_task")
+          nt[0] = True
+        leave()
+        v = yield 0
+        enter(tid)
       elif kind in ("again", "tf"):
         plan = st[1]
         nt[0] = True
@@ -799,7 +818,8 @@ def do_case (case, rep):
 
 def rand_step (rng, tid, ntasks, blocks):
   r = rng.random()
-  if r < 0.18: return ["y0"]
+  if r < 0.15: return ["y0"]
+  if r < 0.18: return ["poke", rng.randrange(ntasks)]
   if r < 0.30: return ["num", rng.choice([0.5, 1, 2.5, 7])]
   if r < 0.42: return ["sleep", rng.choice([0.25, 1, 3, 10.5])]
   if r < 0.48: return ["sleep_abs", rng.choice([0.5, 2, 6, 0, -1, -30])]
@@ -847,6 +867,16 @@ def gen_random (rng, n):
       pos = rng.randrange(0, len(tasks[b]["steps"]) + 1)
       tasks[b]["steps"][pos:pos] = [["sleep", rng.choice([20, 30, 45])],
                                     ["wake", tok, a, rng.choice(["schedule", "fast"])]]
+    force_inthread = False
+    # a task that gives way a few times and then waits, and another that
+    # schedule()s it meanwhile (it is queued already: nothing may come of it)
+    if nt >= 2 and rng.random() < 0.3:
+      a, b = rng.sample(range(nt), 2)
+      k = rng.randrange(1, 4)
+      tasks[a]["steps"][0:0] = [["y0"]] * k + [rng.choice([["sleep", 3], ["num", 2.5],
+                                                        ["sel_to", 2], ["sleep", 10.5]])]
+      tasks[b]["steps"][0:0] = [["poke", a]] * (k + 1)
+      force_inthread = True
     if rng.random() < 0.25:
       tid = rng.randrange(nt)
       tasks[tid]["steps"].append(rng.choice([["raise"], ["raise"], ["raise", "base"],
@@ -868,7 +898,7 @@ def gen_random (rng, n):
         sp["ret"] = 8
       timers.append(sp)
     case = dict(epoll=False, tasks=tasks, timers=timers)
-    if rng.random() < 0.5: case["inthread"] = True
+    if rng.random() < 0.5 or force_inthread: case["inthread"] = True
     if rng.random() < 0.4:
       case["realfd"] = True
       if rng.random() < 0.6: case["close_after"] = True
